@@ -156,6 +156,9 @@ def c06_tree():
             <break/>
             <field name="b" type="short"/>
         </chunked>
+        <chunked>
+            <field name="c" type="char"/>
+        </chunked>
     </struct>
     <struct name="AfterChunk">
         <chunked>
@@ -237,7 +240,7 @@ def c06_tree():
         <chunked>
             <field name="leader" type="Member"/>
             <break/>
-            <length name="members_count" type="char"/>
+            <length name="members_count" type="char" offset="-1"/>
             <field name="season" type="char"/>
             <array name="members" type="Member" length="members_count" delimited="true" trailing-delimiter="false"/>
             <break/>
@@ -282,6 +285,8 @@ def run_generated(plan, env, res, tr, fail):
         case = pkt_cls.KindDataDefault(fallback=g.get("note", ""), fb=g["k"] % 253)
     import inspect
     extra = {"mark": "\u00ffzz"} if "mark" in inspect.signature(inner_cls.__init__).parameters else {}
+    if g["variant"] == "InnerChunked":
+        extra["c"] = g["b"] % 253            # the second <chunked> section of the nested structure
     pkt = pkt_cls(h=g["h"], s1=g["s1"], inner=inner_cls(a=g["a"], b=g["b"], **extra), s2=g["s2"], kind=kind, kind_data=case,
                   k=g["k"], s3=g["s3"])
     w = EoWriter()
@@ -300,7 +305,7 @@ def run_generated(plan, env, res, tr, fail):
     if kind != 2:
         res.count("probe.break_inside_switch_case")
     if g["variant"] == "InnerChunked":
-        chunks = [[("s", g["s1"])], [("s", g["a"])], [("short", g["b"])], [("f3", "\u00ffes"), ("s", g["s2"])], *kchunks, [("three", g["k"]), ("e", g["s3"])]]
+        chunks = [[("s", g["s1"])], [("s", g["a"])], [("short", g["b"]), ("char", g["b"] % 253)], [("f3", "\u00ffes"), ("s", g["s2"])], *kchunks, [("three", g["k"]), ("e", g["s3"])]]
     else:
         chunks = [[("s", g["s1"])], [("f3", g["a"]), ("short", g["b"]), ("f3", "\u00ffzz"), ("f2", "z\u00ff")], [("f3", "\u00ffes"), ("s", g["s2"])], *kchunks, [("three", g["k"]), ("e", g["s3"])]]
     if body.count(0xFF) != len(chunks) - 1:
@@ -374,7 +379,8 @@ def run_generated_roster(g, net, srv, EoWriter, EoReader, res, tr, fail):
     res.count("probe.chunked_section_of_structs_only")
     # leader | count + first member | further members (separated, no trailing delimiter) | closing number
     chunks = [[("short", g["members"][0][0]), ("s", g["members"][0][1])]]
-    chunks.append([("char", len(rest)), ("char", closing % 251 + 1)] + ([("short", rest[0][0]), ("s", rest[0][1])] if rest else []))
+    # the count travels minus its offset of -1
+    chunks.append([("char", len(rest) + 1), ("char", closing % 251 + 1)] + ([("short", rest[0][0]), ("s", rest[0][1])] if rest else []))
     chunks += [[("short", m[0]), ("s", m[1])] for m in rest[1:]]
     chunks.append([("short", closing)])
     if out.count(0xFF) != len(chunks) - 1:
